@@ -669,7 +669,13 @@ func cmdCheck(args []string) int {
 	ass = append(ass, ax...)
 	var tr []string
 	for a := range trusted {
-		tr = append(tr, "assumed (trusted) contract, body not verified: "+a)
+		if strings.Contains(a, "is assumed, not proved") {
+			tr = append(tr, "assumed postcondition: "+a)
+		} else if strings.Contains(a, ": assumed at ") {
+			tr = append(tr, "explicit assumption: "+a)
+		} else {
+			tr = append(tr, "assumed (trusted) contract, body not verified: "+a)
+		}
 	}
 	sort.Strings(tr)
 	ass = append(ass, tr...)
